@@ -39,6 +39,7 @@ type vNet struct {
 	maxBefore                   int            // bound: stop() happens at the latest during copy number maxBefore
 	maxAfter                    int            // bound (symbolic only): copies explored after stop()
 	failFirst                   bool           // the first (synchronous) copy fails
+	offline                     bool           // the peer is disconnected when the swap moves on: the copy during which stop() happens fails, and so do the next two
 	sends, afterStop, afterExit int
 	stopped, sawStop            bool
 	stoppedAt                   int
@@ -61,6 +62,9 @@ func (n *vNet) SendMessage(peerId string, message []byte, messageType int) error
 			// depend on the scheduler's choice between two ready channels)
 			zzverif.Assume(n.afterStop <= n.maxAfter)
 		}
+		if n.offline && n.afterStop <= 2 {
+			return vErrSend // still disconnected (it reconnects later)
+		}
 		return nil
 	}
 	if n.sends == 1 && n.failFirst {
@@ -75,6 +79,9 @@ func (n *vNet) SendMessage(peerId string, message []byte, messageType int) error
 		n.stop()
 		if n.tick != nil && zzverif.Bool("tick_already_due") {
 			n.tick <- time.Time{} // a tick that became due before/while this copy went out
+		}
+		if n.offline && n.sends > 1 {
+			return vErrSend // this retransmission did not reach the peer
 		}
 	} else if n.tick != nil {
 		n.tick <- time.Time{} // time passes: the next tick fires
@@ -224,6 +231,7 @@ func H_C22_removeNeverSent_NoPanic() {
 func vLoopEntry(explicitTicks bool, maxBefore, maxAfter int) {
 	n := vNewNet(maxBefore, maxAfter)
 	n.failFirst = zzverif.Bool("first_copy_fails")
+	n.offline = zzverif.Bool("peer_offline_when_stopped")
 	m := NewManager()
 	id := "swap-1"
 	var rm *RedundantMessenger
